@@ -15,7 +15,10 @@ RULE = ("chunks: size 1..9 x length 0..20 x format b h i f d x byte order None/<
         "include the extremes of each width and non-representable doubles for 'f'; non-trivial = at least one full "
         "chunk and a padded tail; wav: every width x mono/stereo x keep, samples include the extremes; files written "
         "with the standard wave module from bytes built by int.to_bytes; non-trivial = >= 3 samples incl. a negative "
-        "(or > 127 for 8 bit) one; wavhist: 2-3 WavStreams (same file / different files / mixed widths, opened by name) "
+        "(or > 127 for 8 bit) one; header sample rates in all wav families are drawn from the usual ones, 1..19, 20..100 "
+        "and the largest a 32-bit header holds (rate * channels * width < 2**32), with a sweep rate 1..20 / max x 1 and 3 "
+        "frames x width x channels x keep, and files of 1023..2049 frames; chunk runs up to 40 * size samples; "
+        "files with more than two channels are outside the property text (mono or stereo) and not generated; wavhist: 2-3 WavStreams (same file / different files / mixed widths, opened by name) "
         "alive together and pulled one sample at a time in seeded orders (alternating, frame-wise, sequential, random, "
         "stopping early), pulls continue past StopIteration, the OS file objects the library opened are watched after "
         "every pull and after deletion; non-trivial = >= 2 switches between streams that both still hold samples; "
@@ -83,6 +86,15 @@ def gen_chunks(tier, rng):
   for size in (129, 200, 300):
     n = size + 3
     yield {"size": size, "fmt": "b", "order": None, "pad": 0, "xs": ints_for("b", n, rng), "tags": ["fmt=b", "bigsize"]}
+  # sequences far longer than the chunk (> 8 * size samples, up to a few hundred chunks)
+  for k in range(12 if tier == "quick" else 120):
+    fmt = rng.choice("bhifd"); size = rng.randrange(1, 8); n = rng.randrange(8 * size + 1, 40 * size + 2)
+    if fmt in "bhi":
+      xs = ints_for(fmt, n, rng); pad = rng.choice([0, -1, 5])
+    else:
+      xs = [dbits(rng.choice(FLOATS) if rng.random() < 0.6 else rng.uniform(-1, 1)) for _ in range(n)]; pad = dbits(0.25)
+    yield {"size": size, "fmt": fmt, "order": rng.choice([None, "<", ">", "!", "=", "@"]), "pad": pad, "xs": xs,
+           "tags": ["fmt=" + fmt, "long"]}
   # out-of-range integers / floats overflowing binary32 (struct.error / OverflowError / inf: the property says
   # nothing, but model and code must still agree: "<" and ">" raise, native struct mode and array store inf)
   for k in range(30 if tier == "quick" else 300):
@@ -153,7 +165,25 @@ def gen_wav(tier, rng):
           pool = [lo, hi, 0, 1, lo + 1, hi - 1, 128 if bits == 8 else -1, 127 if bits == 8 else -2]
           samples = [rng.choice(pool) if rng.random() < 0.6 else rng.randrange(lo, hi + 1) for _ in range(nfr * channels)]
           yield {"bits": bits, "channels": channels, "keep": keep, "samples": samples,
-                 "rate": rng.choice([8000, 44100, 48000, 11025]), "tags": ["bits=%d" % bits, "ch=%d" % channels, "keep=%s" % keep]}
+                 "rate": H.wav_rate(rng, bits, channels), "tags": ["bits=%d" % bits, "ch=%d" % channels, "keep=%s" % keep]}
+  # header fields at the ends of their range: sample rate 1..20 and the largest the header can hold, 1 and 3 frames,
+  # every width x mono / stereo x keep (any internal block size derived from the rate must not lose data)
+  for bits in (8, 16, 24, 32):
+    for channels in (1, 2):
+      for keep in (False, True):
+        m = H.max_rate(bits, channels)
+        rates = list(range(1, 21)) + [m] if tier != "quick" else [1, 19, 20, rng.randrange(2, 19), m]
+        for rate in rates:
+          for nfr in (1, 3):
+            yield {"bits": bits, "channels": channels, "keep": keep, "samples": H._wav_samples(bits, nfr * channels, rng),
+                   "rate": rate, "tags": ["bits=%d" % bits, "ch=%d" % channels, "keep=%s" % keep, "rate-end"]}
+  # runs far longer than any internal period (1024 frames, 50 ms of audio, ...), at low, usual and high rates
+  longs = [(8, 1023), (16, 1024), (8, 1025), (16, 2049)] if tier == "quick" else \
+          [(b, n) for b in (8, 16, 24, 32) for n in (1023, 1024, 1025, 2049)]
+  for bits, nfr in longs:
+    channels = rng.choice([1, 2])
+    yield {"bits": bits, "channels": channels, "keep": rng.random() < 0.5, "samples": H._wav_samples(bits, nfr * channels, rng),
+           "rate": H.wav_rate(rng, bits, channels), "tags": ["bits=%d" % bits, "ch=%d" % channels, "long"]}
 
 
 def run_wav(c):
